@@ -34,7 +34,9 @@ IsBytes(s, n) == Len(s) = n /\ \A i \in 1..n : s[i] \in 0..255
 BotOK(e)    == e.bot = JavaHex(e.sha1)
 ServerOK(e) == e.server = JavaHex(e.sha1)
 UuidOK(e)   == e.out = UUIDv3(e.md5)
-SigOK(e)    == e.accepted => VerifyGlue(e.rsaValid)          \* never accepts what the primitive rejects
+SigOK(e)    == /\ e.accepted => VerifyGlue(e.rsaValid)       \* never accepts what the primitive rejects
+               /\ (VerifyGlue(e.rsaValid) /\ ~e.expired) => e.accepted   \* ... and accepts what it accepts (genuine
+               \* signatures exist only under the harness's own services key; under the embedded key this is vacuous)
 TwosOK(e)   == e.out = TwosComplement(e.dg)
 \* harness consistency (a failure here is an infrastructure problem, never a violation)
 ShapeOK(e)  == CASE e.k = "digest" -> IsBytes(e.sha1, 20)
